@@ -248,6 +248,8 @@ def handle : Handler
       let rows ← sparseRows? rows
       let nn := e.length
       let nRow := mk.length
+      -- `-` is both "no row" and "one empty row"
+      let rows := if rows.isEmpty then List.replicate nRow [] else rows
       let cols := if nRow < nn then (List.range (nn - nRow)).map (· + nRow) else List.range nn
       let kk := (checkNeighbors k cols.length).toNat
       let bad := (List.range nRow).filter fun i =>
